@@ -11,6 +11,7 @@ import (
 	"sort"
 	"strings"
 	"sync"
+	"sync/atomic"
 	"time"
 
 	"github.com/tinode/chat/server/auth"
@@ -266,6 +267,43 @@ type Adapter struct {
 	calls     []Call
 }
 
+// Store latency: every adapter call first sleeps latPat[n % len] microseconds (n = number of the
+// call), outside the lock. Inside a synctest bubble the sleep is virtual: it costs nothing but lets
+// every other goroutine run up to its own next blocking point, so concurrent requests interleave at
+// store-call boundaries the way they do over a real database connection. Sleeping reports the
+// number of calls asleep so that the harness can tell "quiescent" from "waiting for the store".
+var (
+	latPat   atomic.Pointer[[]int]
+	latN     atomic.Int64
+	sleeping atomic.Int32
+)
+
+// SetLatency installs the pattern (nil or empty = no latency).
+func SetLatency(pat []int) {
+	if len(pat) == 0 {
+		latPat.Store(nil)
+		return
+	}
+	p := append([]int(nil), pat...)
+	latN.Store(0)
+	latPat.Store(&p)
+}
+
+// Sleeping returns the number of adapter calls which are waiting out their latency.
+func Sleeping() int { return int(sleeping.Load()) }
+
+func (a *Adapter) lock() {
+	if p := latPat.Load(); p != nil {
+		n := latN.Add(1)
+		if d := (*p)[int(n)%len(*p)]; d > 0 {
+			sleeping.Add(1)
+			time.Sleep(time.Duration(d) * time.Microsecond)
+			sleeping.Add(-1)
+		}
+	}
+	a.mu.Lock()
+}
+
 // A is the process-wide instance registered with the store.
 var A = &Adapter{}
 
@@ -504,7 +542,7 @@ func (u *userRow) toUser() *t.User {
 // ------------------------------------------------------------------ users
 
 func (a *Adapter) UserCreate(user *t.User) error {
-	a.mu.Lock()
+	a.lock()
 	defer a.mu.Unlock()
 	if err := a.enter("UserCreate", true, user.Id); err != nil {
 		return err
@@ -523,7 +561,7 @@ func (a *Adapter) UserCreate(user *t.User) error {
 }
 
 func (a *Adapter) UserGet(uid t.Uid) (*t.User, error) {
-	a.mu.Lock()
+	a.lock()
 	defer a.mu.Unlock()
 	if err := a.enter("UserGet", false, uid.String()); err != nil {
 		return nil, err
@@ -536,7 +574,7 @@ func (a *Adapter) UserGet(uid t.Uid) (*t.User, error) {
 }
 
 func (a *Adapter) UserGetAll(ids ...t.Uid) ([]t.User, error) {
-	a.mu.Lock()
+	a.lock()
 	defer a.mu.Unlock()
 	if err := a.enter("UserGetAll", false, ""); err != nil {
 		return nil, err
@@ -589,7 +627,7 @@ func filter[T any](in []T, keep func(T) bool) []T {
 }
 
 func (a *Adapter) UserDelete(uid t.Uid, hard bool) error {
-	a.mu.Lock()
+	a.lock()
 	defer a.mu.Unlock()
 	if err := a.enter("UserDelete", true, uid.String()); err != nil {
 		return err
@@ -653,7 +691,7 @@ func (a *Adapter) UserDelete(uid t.Uid, hard bool) error {
 }
 
 func (a *Adapter) UserUpdate(uid t.Uid, update map[string]any) error {
-	a.mu.Lock()
+	a.lock()
 	defer a.mu.Unlock()
 	if err := a.enter("UserUpdate", true, uid.String()+" "+keys(update)); err != nil {
 		return err
@@ -736,7 +774,7 @@ func keys(m map[string]any) string {
 }
 
 func (a *Adapter) UserUpdateTags(uid t.Uid, add, remove, reset []string) ([]string, error) {
-	a.mu.Lock()
+	a.lock()
 	defer a.mu.Unlock()
 	if err := a.enter("UserUpdateTags", true, uid.String()); err != nil {
 		return nil, err
@@ -773,7 +811,7 @@ func (a *Adapter) UserUpdateTags(uid t.Uid, add, remove, reset []string) ([]stri
 }
 
 func (a *Adapter) UserGetByCred(method, value string) (t.Uid, error) {
-	a.mu.Lock()
+	a.lock()
 	defer a.mu.Unlock()
 	if err := a.enter("UserGetByCred", false, method+":"+value); err != nil {
 		return t.ZeroUid, err
@@ -808,7 +846,7 @@ func (a *Adapter) UserUnreadCount(ids ...t.Uid) (map[t.Uid]int, error) {
 }
 
 func (a *Adapter) UserGetUnvalidated(lastUpdatedBefore time.Time, limit int) ([]t.Uid, error) {
-	a.mu.Lock()
+	a.lock()
 	defer a.mu.Unlock()
 	if err := a.enter("UserGetUnvalidated", false, ""); err != nil {
 		return nil, err
@@ -842,7 +880,7 @@ func (a *Adapter) UserGetUnvalidated(lastUpdatedBefore time.Time, limit int) ([]
 // ------------------------------------------------------------------ auth records
 
 func (a *Adapter) AuthAddRecord(uid t.Uid, scheme, unique string, authLvl auth.Level, secret []byte, expires time.Time) error {
-	a.mu.Lock()
+	a.lock()
 	defer a.mu.Unlock()
 	if err := a.enter("AuthAddRecord", true, unique); err != nil {
 		return err
@@ -858,7 +896,7 @@ func (a *Adapter) AuthAddRecord(uid t.Uid, scheme, unique string, authLvl auth.L
 }
 
 func (a *Adapter) AuthDelScheme(user t.Uid, scheme string) error {
-	a.mu.Lock()
+	a.lock()
 	defer a.mu.Unlock()
 	if err := a.enter("AuthDelScheme", true, scheme); err != nil {
 		return err
@@ -869,7 +907,7 @@ func (a *Adapter) AuthDelScheme(user t.Uid, scheme string) error {
 }
 
 func (a *Adapter) AuthDelAllRecords(user t.Uid) (int, error) {
-	a.mu.Lock()
+	a.lock()
 	defer a.mu.Unlock()
 	if err := a.enter("AuthDelAllRecords", true, ""); err != nil {
 		return 0, err
@@ -881,7 +919,7 @@ func (a *Adapter) AuthDelAllRecords(user t.Uid) (int, error) {
 }
 
 func (a *Adapter) AuthUpdRecord(uid t.Uid, scheme, unique string, authLvl auth.Level, secret []byte, expires time.Time) error {
-	a.mu.Lock()
+	a.lock()
 	defer a.mu.Unlock()
 	if err := a.enter("AuthUpdRecord", true, unique); err != nil {
 		return err
@@ -915,7 +953,7 @@ func (a *Adapter) AuthUpdRecord(uid t.Uid, scheme, unique string, authLvl auth.L
 }
 
 func (a *Adapter) AuthGetRecord(uid t.Uid, scheme string) (string, auth.Level, []byte, time.Time, error) {
-	a.mu.Lock()
+	a.lock()
 	defer a.mu.Unlock()
 	if err := a.enter("AuthGetRecord", false, scheme); err != nil {
 		return "", 0, nil, time.Time{}, err
@@ -929,7 +967,7 @@ func (a *Adapter) AuthGetRecord(uid t.Uid, scheme string) (string, auth.Level, [
 }
 
 func (a *Adapter) AuthGetUniqueRecord(unique string) (t.Uid, auth.Level, []byte, time.Time, error) {
-	a.mu.Lock()
+	a.lock()
 	defer a.mu.Unlock()
 	if err := a.enter("AuthGetUniqueRecord", false, unique); err != nil {
 		return t.ZeroUid, 0, nil, time.Time{}, err
